@@ -17,21 +17,34 @@ CHUNK = 25
 CASE_SECONDS = 20
 TECHNIQUE = ("Lean 4 proofs over the executable model of MD_Driver/MD_Channel/Platform::vgm_export (plain subset) + byte-exact differential "
              "correspondence of whole VGM files + independent frame-schedule oracle (Spec/Schedule + Spec/VgmParse) on the real files")
-LEVEL_TEXT = ("Machine-checked theorems over Model/MdDriver.lean: the play_step scheduler stays on the 147-sample grid and fires one sequence "
-              "update every 735 samples, so that every register write of the exported log sits on the 60 Hz grid (no floating-point assumption), closed form of the 8-bit tempo accumulator, antitonicity of the FM/PSG "
-              "attenuation formulas in the volume setting, soundness of the regenerated frequency tables. The whole-log statements (key-on/"
-              "key-off frame, pitch value, extent) are checked by the schedule oracle on every real export; the model reproduces every real "
-              "file byte for byte.")
-LEVEL_NOTE = ("Partial: C07_tick_delivery covers the first pass of a track (up to its end / loop-back); C07_key_frame_partial is per update for "
-              "FM channels of tracks without SLUR (hypotheses: no platform/drum-mode events, step budget), composed with C07_update_ticks and "
-              "C07_play_step_grid by hand, not as one theorem over the log; C07_pitch_value_partial gives the computed/written words, not the "
-              "register-file replay; export_extent is NOT proved. These and PSG/slur/loop-pass cases stay in C07_full_statement, covered by "
-              "the spec oracle (Spec/Schedule on the real VGM log) and by byte-exact correspondence. Trusted: Lean kernel, "
-              "Model/MdDriver.lean + PlayerCh + Vgm (agreement with the C++ by differential testing), Spec/Schedule.lean, Spec/VgmParse.lean.")
+LEVEL_TEXT = ("Machine-checked theorems over Model/MdDriver.lean. Clock: the play_step scheduler stays on the 147-sample grid and fires one sequence "
+              "update every 735 samples (no floating-point assumption). Whole log: the export loop of every successful export is exactly the sequence "
+              "updates 0..K, the writes of update k at sample 735k, waits summing to 735K, K the first update after which no channel plays or the loop "
+              "count is reached, a loop marker after update k iff loop_trigger is set and get_loop_count()=0 (C07_log_by_updates). Tick stream: "
+              "play_tick delivers on EVERY pass of a track what the looping list machine over perf delivers (loop-back to the loop point, a loop "
+              "section that takes no time ends the track; C07_tick_delivery_all_passes) and the item starting at tick t is delivered by call t, its "
+              "synthetic rest at t+on (C07_list_machine_times). Schedule: for a song with one channel track the tick table (N_k, c_k, tempo_k) is a "
+              "function of the tick stream alone, tempo commands taking effect from the next update (C07_tempo_table_partial); for an FM channel "
+              "without SLUR every update k of the log writes key-off / key-on (last) iff the events of ticks N_k..N_{k+1}-1 call for them "
+              "(C07_schedule_fm_partial, C07_schedule_fm_tempo_partial); per update: slurred FM notes (no key-off, no key-on, pitch only), PSG "
+              "attenuation at key-on and 15 at the end of the track (C07_slur_update_partial, C07_psg_update_partial); extent of the log for a track "
+              "without loop point (C07_export_extent_noloop_partial). Closed form of the tempo accumulator, antitonicity of the attenuation formulas, "
+              "soundness of the regenerated frequency tables. The model reproduces every real file byte for byte; the schedule oracle judges every real export.")
+LEVEL_NOTE = ("Partial: the whole-log theorems are for songs with ONE channel track (plus subroutine tracks); SegTop (every SEGNO at the top level of the "
+              "channel's own track) is a hypothesis of the all-pass theorems - outside it the real player resumes elsewhere (known findings segno-in-sub, "
+              "segno-in-loop); slurred notes and PSG channels are proved per update (any pass), not composed over the log; C07_pitch_value_partial gives "
+              "the computed/written words, not the register-file replay; export_extent is proved for tracks without loop point only - for looping songs "
+              "C07_log_by_updates says when set_loop/stop happen in terms of loop_trigger/get_loop_count, the loop-count lemma (reset position re-crossed "
+              "one loop length after the marker) is NOT proved. These, several channels (tempo commands of all channels compete in track order), and "
+              "max_seconds stay in C07_full_statement, decided per export by the spec oracle (Spec/Schedule on the real VGM log) and by byte-exact "
+              "correspondence. Trusted: Lean kernel, Model/MdDriver.lean + PlayerCh + Vgm (agreement with the C++ by differential testing), "
+              "Spec/Schedule.lean, Spec/VgmParse.lean.")
 RULE = ("IR songs of the plain playback subset: 1..9 FM/PSG channels (+ occasional noise/dummy channels and subroutine tracks), notes, rests, "
         "ties, slurs, counted loops with breaks, calls, loop point, BPM tempo 30..255 and native tempo 1..255 incl. mid-song changes, coarse/"
         "fine/relative volume, transpose (abs/rel), detune, instrument changes (FM 4op with random TL/algorithm/transpose, PSG envelopes with "
-        "slides, sustain and loop); non-trivial = has tempo change, loop, call, segno, slur, instrument or volume command; distinct by request text")
+        "slides, sustain and loop); families: short loop sections at fast tempi (several passes), tempo commands at the first/last tick of an update, "
+        "slur chains, PSG notes at the boundaries of the volume scales; non-trivial = has tempo change, loop, call, segno, slur, instrument or volume "
+        "command; distinct by request text")
 EXPLANATION = ("byte-exact comparison of the exported VGM with the model's VGM; the oracle replays the real log frame by frame on a register "
                "file and compares key-on/key-off frames, block/fnum or PSG divider and attenuation at each key-on with the schedule computed "
                "from the structural expansion of the tracks and the tempo events")
